@@ -30,6 +30,7 @@ func concFiles() map[string]string {
 		"bad2.tw":            "l1\nl2 {{ who.nofn() }}\n",
 		"shuffle.tw":         "@each(n in items.shuffle()){{ n }},@end",
 		"plain.tw":           "plain {{ gid + 1 }} {{ who }}",
+		"chain.tw":           "@if(zero)a@elseif(zero)b@elseif(zero == 1)c@elseif(zero)d@else e{{ who }}@end|@if(zero)x@elseif(gid > 1000)y@elseif(zero)z@else w@end",
 		"errors/500.tw":      "<custom error page>",
 	}
 }
@@ -65,6 +66,7 @@ func concOps() []concOp {
 		{"String(bad2)", false, str("bad2")},
 		{"String(missing)", false, str("nope")},
 		{"String(shuffle)", true, str("shuffle")},
+		{"String(chain)", false, str("chain")},
 		{"Response(home)", false, resp("home")},
 		{"Response(bad)", false, resp("bad")},
 		{"Response(missing)", false, resp("ghost")},
@@ -102,7 +104,7 @@ func init() {
 		ID:         "C15",
 		Level:      "exploration",
 		Race:       true,
-		MaxWorkers: 3,
+		MaxWorkers: 6,
 		CPUBudget:  120,
 		Rule: "rounds of G in {2, 8, 32(,128)} goroutines x GOMAXPROCS in {1, 2, 16}, every goroutine issuing 200 operations drawn (seeded) from 13 concrete calls on one loaded tree - String of a layout+component-in-loop page, a loop page, an object/dump page, two pages failing at run time, a missing name, a shuffle() page; Response ok/failing/missing (error page through the string API); EvaluateString ok/failing; EvaluateFile - with goroutine-specific data; a registered custom function called from inside the templates yields or sleeps 50us on a seeded schedule. " +
 			"Oracles: the harness is built with the Go race detector (halt_on_error=0, log per process); after the rounds the log is parsed and every report with a frame inside the repository is a violation (de-duplicated by the pair of innermost repository frames); the recorded history (goroutine, operation, logical call/return stamps from one atomic counter, result) is checked offline against the stateless model: every result must equal what the same operation returned alone before the round (shuffle as a multiset). Evidence counts operations that overlapped an operation of a different kind. distinct_nontrivial = distinct (round, goroutine, operation) triples that overlapped another kind",
@@ -142,10 +144,23 @@ func init() {
 				debug := (i/2)%2 == 1
 				runtime.GOMAXPROCS(cfg.procs)
 				defer runtime.GOMAXPROCS(runtime.NumCPU())
+				// the very first use of the string API in this process is concurrent (nothing was lexed,
+				// parsed or loaded before): what is initialised lazily is initialised under contention
+				if c.State["cold-burst-done"] == nil {
+					c.State["cold-burst-done"] = true
+					coldBurst(c)
+				}
 				textwire.VerifResetConfig()
 				conf := &config.Config{TemplateDir: "conc", TemplateExt: ".tw", DebugMode: debug}
 				if custom {
 					conf.ErrorPagePath = "errors/500"
+				}
+				// baselines come from a template value of their own, so that the one used
+				// concurrently was never used alone before
+				baseTpl, err := textwire.NewTemplate(conf)
+				if err != nil {
+					c.Violation("concurrent:load-failed", err.Error(), nil)
+					return
 				}
 				tpl, err := textwire.NewTemplate(conf)
 				if err != nil {
@@ -167,7 +182,7 @@ func init() {
 				for g := 0; g < cfg.g; g++ {
 					base[g] = make([]string, len(ops))
 					for k, op := range ops {
-						base[g][k] = op.run(tpl, dataOf(g), abs)
+						base[g][k] = op.run(baseTpl, dataOf(g), abs)
 						c.Eval(1)
 					}
 				}
@@ -283,4 +298,59 @@ func scanRaceLog(c *core.Ctx) {
 		}
 		c.Violation("race:"+key, "the race detector reported a data race: "+key, map[string]any{"report": clipS("WARNING: DATA RACE"+blk, 5000)})
 	}
+}
+
+// coldBurst issues the first string-API calls of the process from many goroutines at once and
+// compares what they returned with the same calls made sequentially afterwards
+func coldBurst(c *core.Ctx) {
+	srcs := []string{
+		"@each(i in items){{ i }}@end @if(gid)y@elseif(zero)n@else e@end {{-- c --}}@for(k = 0; k < 2; k++){{ k }}@end",
+		"@insert(\"a\", 1)@reserve(\"b\")@component(\"c\")@dump(gid) {{ who.upper() }}",
+		"x {{ who }}\n{{ gid / zero }}",
+		"@each(i in items)@continueIf(i == 1)@breakIf(i == 2){{ i }}@end",
+	}
+	abs, _ := filepath.Abs("conc/plain.tw")
+	const G = 16
+	results := make([][]string, G)
+	var wg sync.WaitGroup
+	start := make(chan struct{})
+	data := func(g int) map[string]any {
+		return map[string]any{"gid": g, "who": "cold", "items": []int{0, 1, 2, 3}, "zero": 0}
+	}
+	for g := 0; g < G; g++ {
+		wg.Add(1)
+		go func(g int) {
+			defer wg.Done()
+			<-start
+			for n := 0; n < 10; n++ {
+				for _, src := range srcs {
+					out, err := textwire.EvaluateString(src, data(g))
+					results[g] = append(results[g], fmt.Sprintf("%s|%v", out, err))
+				}
+				out, err := textwire.EvaluateFile(abs, data(g))
+				results[g] = append(results[g], fmt.Sprintf("%s|%v", out, err))
+			}
+		}(g)
+	}
+	close(start)
+	wg.Wait()
+	for g := 0; g < G; g++ {
+		k := 0
+		for n := 0; n < 10; n++ {
+			for _, src := range srcs {
+				out, err := textwire.EvaluateString(src, data(g))
+				if want := fmt.Sprintf("%s|%v", out, err); results[g][k] != want {
+					c.Violation("concurrent:cold-start", fmt.Sprintf("one of the first concurrent EvaluateString calls of the process returned\n%s\nalone it returns\n%s", clipS(results[g][k], 400), clipS(want, 400)), map[string]any{"source": src})
+				}
+				k++
+			}
+			out, err := textwire.EvaluateFile(abs, data(g))
+			if want := fmt.Sprintf("%s|%v", out, err); results[g][k] != want {
+				c.Violation("concurrent:cold-start", fmt.Sprintf("one of the first concurrent EvaluateFile calls returned %s, alone %s", clipS(results[g][k], 300), clipS(want, 300)), nil)
+			}
+			k++
+		}
+	}
+	c.Eval(G * 10 * (len(srcs) + 1))
+	c.Count("cold_start_concurrent_calls", G*10*(len(srcs)+1))
 }
